@@ -1,0 +1,72 @@
+//! Verification hooks. Compiled only with `--cfg daniel729_chess_verif`;
+//! without that flag nothing in this file (or any call into it) exists.
+//!
+//! * `poll`  - called at the node-entry stop poll of the search. Counts polls,
+//!   can clear the running flag after a preset number of polls, counts the
+//!   polls made after the flag went down, can empty the table (table-less
+//!   search) and records the deepest ply seen.
+//! * `sched` - a named schedule point: sleeps for `VERIF_SCHED_<name>` ms (if
+//!   set) and writes `#ev <name> <seq>` to stderr.
+//! * `search_begin` - resets the per-search counters (self-play driver).
+#![allow(dead_code)]
+
+use std::sync::atomic::{AtomicBool, AtomicU64, Ordering::Relaxed, Ordering::SeqCst};
+
+/// Number of node-entry polls since the last `reset`.
+pub static POLLS: AtomicU64 = AtomicU64::new(0);
+/// The running flag is cleared when `POLLS` equals this value (before the poll reads it).
+pub static STOP_AFTER: AtomicU64 = AtomicU64::new(u64::MAX);
+/// Polls that found the flag already cleared.
+pub static POLLS_AFTER_STOP: AtomicU64 = AtomicU64::new(0);
+/// When set the table is emptied at every poll.
+pub static NO_TABLE: AtomicBool = AtomicBool::new(false);
+/// Largest `real_depth` seen at a poll.
+pub static MAX_REAL_DEPTH: AtomicU64 = AtomicU64::new(0);
+/// Sequence number of `#ev` lines.
+static SEQ: AtomicU64 = AtomicU64::new(0);
+
+pub fn reset(stop_after: u64, no_table: bool) {
+    POLLS.store(0, Relaxed);
+    POLLS_AFTER_STOP.store(0, Relaxed);
+    MAX_REAL_DEPTH.store(0, Relaxed);
+    STOP_AFTER.store(stop_after, Relaxed);
+    NO_TABLE.store(no_table, Relaxed);
+}
+
+fn env_u64(name: &str) -> Option<u64> {
+    std::env::var(name).ok().and_then(|s| s.parse().ok())
+}
+
+/// Start of one search in a driver that has no harness around it (the
+/// binary): `VERIF_STOP_AFTER` polls, if set, end every search.
+pub fn search_begin() {
+    if let Some(n) = env_u64("VERIF_STOP_AFTER") {
+        reset(n, false);
+    }
+}
+
+pub fn poll<K, V, S>(
+    flag: &AtomicBool,
+    table: &mut std::collections::HashMap<K, V, S>,
+    real_depth: u8,
+) {
+    let n = POLLS.fetch_add(1, Relaxed);
+    if n == STOP_AFTER.load(Relaxed) {
+        flag.store(false, Relaxed);
+    }
+    if !flag.load(Relaxed) {
+        POLLS_AFTER_STOP.fetch_add(1, Relaxed);
+    }
+    if NO_TABLE.load(Relaxed) {
+        table.clear();
+    }
+    MAX_REAL_DEPTH.fetch_max(real_depth as u64, Relaxed);
+}
+
+pub fn sched(name: &str) {
+    let seq = SEQ.fetch_add(1, SeqCst);
+    eprintln!("#ev {} {}", name, seq);
+    if let Some(ms) = env_u64(&format!("VERIF_SCHED_{}", name)) {
+        std::thread::sleep(std::time::Duration::from_millis(ms));
+    }
+}
